@@ -95,6 +95,10 @@ class BoxV(object):
     def __init__(self, v):
         self.cell = [v]
 
+    def field_place(self, i):
+        # Box<T>.0 : Unique<T> { pointer: NonNull<T> { pointer: *const T } } -- exposed by rustc's inserted pointer checks
+        return ([Agg('Unique', None, [Agg('NonNull', None, [Ref(self.cell, 0)])])], 0)
+
     def __repr__(self):
         return 'Box(%r)' % (self.cell[0],)
 
